@@ -938,4 +938,86 @@ theorem root_key_free_preserved (rc : Bool) (reg : Reg) (op : Op) (h : fget ['/'
       | some f => rw [dispatch_some_of_callable rc reg p v f hc]; exact h
       | none => rw [dispatch_some_of_not_callable rc reg p v hc, (writeAt_log reg p v).2]; exact h
 
+/-! ## pointer-level round trip -/
+
+theorem splitOn_no_sep (sep : Char) (t : List Char) (h : ∀ c ∈ t, c ≠ sep) : splitOn sep t = [t] := by
+  induction t with
+  | nil => simp [splitOn]
+  | cons c r ih =>
+    obtain ⟨hd, tl, h1, h2⟩ := splitOn_cons_ne sep c r (h c (by simp))
+    rw [ih (fun d hd => h d (by simp [hd]))] at h1
+    simp at h1
+    rw [h2, ← h1.1, ← h1.2]
+
+theorem splitOn_append_sep (sep : Char) (t x : List Char) (h : ∀ c ∈ t, c ≠ sep) :
+    splitOn sep (t ++ sep :: x) = t :: splitOn sep x := by
+  induction t with
+  | nil => simp [splitOn_cons_sep]
+  | cons c r ih =>
+    have ih := ih (fun d hd => h d (by simp [hd]))
+    obtain ⟨hd, tl, h1, h2⟩ := splitOn_cons_ne sep c (r ++ sep :: x) (h c (by simp))
+    rw [ih] at h1
+    simp at h1
+    simp only [List.cons_append]
+    rw [h2, ← h1.1, ← h1.2]
+
+theorem escapeToken_no_slash (s : Tok) : ∀ c ∈ escapeToken s, c ≠ '/' := by
+  induction s with
+  | nil => intro c hc; simp [escapeToken_nil] at hc
+  | cons d r ih =>
+    intro c hc
+    rw [escapeToken_cons] at hc
+    rcases List.mem_append.mp hc with h | h
+    · unfold esc1 at h
+      split at h
+      · simp at h; rcases h with h | h <;> subst h <;> decide
+      · split at h
+        · simp at h; rcases h with h | h <;> subst h <;> decide
+        · rename_i h1 h2; simp at h; subst h; exact h2
+    · exact ih c h
+
+theorem splitOn_join (s : Tok) (r : List Tok) :
+    splitOn '/' (escapeToken s ++ joinSegs r) = escapeToken s :: r.map escapeToken := by
+  induction r generalizing s with
+  | nil => simp [joinSegs, splitOn_no_sep '/' _ (escapeToken_no_slash s)]
+  | cons s2 r ih =>
+    rw [joinSegs, splitOn_append_sep '/' _ _ (escapeToken_no_slash s), ih]; rfl
+
+theorem mapOpt_unescape_escape (segs : List Tok) : mapOpt unescapeToken (segs.map escapeToken) = some segs := by
+  induction segs with
+  | nil => rfl
+  | cons s r ih =>
+    simp only [List.map_cons, mapOpt]
+    rw [unescapeToken_eq_scan, unescScan_escape, ih]; rfl
+
+/-- `parse_pointer ∘ canonical_pointer = id` on every non-root token list except the single empty
+token (the pointer `/`, which this crate reads as the root). -/
+theorem parse_canonical (segs : List Tok) (hne : segs ≠ []) (h1 : segs ≠ [[]]) :
+    parsePointer (canonicalPointer segs) = .ok segs := by
+  cases segs with
+  | nil => exact absurd rfl hne
+  | cons s r =>
+    have hc : canonicalPointer (s :: r) = '/' :: (escapeToken s ++ joinSegs r) := by
+      simp [canonicalPointer, joinSegs]
+    rw [hc]
+    unfold parsePointer
+    have hroot : ¬ (('/' :: (escapeToken s ++ joinSegs r)) = [] ∨ ('/' :: (escapeToken s ++ joinSegs r)) = ['/']) := by
+      intro h
+      rcases h with h | h
+      · cases h
+      · simp only [List.cons.injEq, true_and, List.append_eq_nil_iff] at h
+        obtain ⟨hs, hr⟩ := h
+        have hs' : s = [] := by
+          cases s with
+          | nil => rfl
+          | cons c t => rw [escapeToken_cons] at hs; unfold esc1 at hs; split at hs <;> (try split at hs) <;> simp at hs
+        have hr' : r = [] := by
+          cases r with
+          | nil => rfl
+          | cons a b => simp [joinSegs] at hr
+        subst hs'; subst hr'; exact h1 rfl
+    rw [if_neg hroot]
+    simp only
+    rw [splitOn_join, ← List.map_cons, mapOpt_unescape_escape]
+
 end Repe
